@@ -252,11 +252,16 @@ def cached_cases(key_names, gen, extra=""):
     if os.path.exists(f) and os.path.exists(meta):
         return f, json.load(open(meta))
     os.makedirs(d, exist_ok=True)
-    tmp = f + ".tmp"
+    # two checks may generate the same entry at the same time: private temporary names, atomic renames,
+    # and the meta file (written last) is what marks the entry complete
+    tmp = "%s.%d.tmp" % (f, os.getpid())
     with open(tmp, "w") as out:
         m = gen(out)
-    os.rename(tmp, f)
-    json.dump(m, open(meta, "w"))
+    os.replace(tmp, f)
+    mtmp = "%s.%d.tmp" % (meta, os.getpid())
+    with open(mtmp, "w") as mo:
+        json.dump(m, mo)
+    os.replace(mtmp, meta)
     return f, m
 
 
